@@ -23,6 +23,12 @@ Readings (the weaker one is used where two exist):
   get the focus), so the statement cannot be meant for it.  "selectable" is the answer of the child's
   own ``selectable()`` at that moment (containers cache it; the property does not say when nested
   changes propagate).
+* "contents mutations (insert, delete, slice assignment, clearing)" are read as the list API of the
+  documented "list-like" ``contents`` objects / list walkers: every spelling Python accepts for a list
+  (negative and out-of-range slice bounds, extended slices with positive or negative step, append, extend,
+  ``+=``, remove, pop, reverse, ``*= 0``) is a legal edit.  After any of them only the stated clauses are
+  asserted (valid focus position, focus is that child, empty => None / IndexError); the property does not
+  say WHICH child receives the focus, so that is not compared with anything.
 * "whose contents were just set" = right after ``c.contents[:] = items`` / ``c.contents = items``
   (not after every insert/delete).
 * "an unhandled key comes back unchanged": the result is ``None`` or ``== key``; it must be ``== key``
@@ -55,9 +61,18 @@ RULE = (
     "keys and characters, button-1 press at a cell given as fractions of the rendered size, focus_position = p "
     "(valid, out of range, None/str/float/foreign position type), set_focus_path (valid prefix, valid+bad "
     "element, too long, raw), contents insert/delete/slice-assign/whole-assign/clear on a chosen list-like "
-    "container (ListBox: on its walker), Frame header/footer replace/remove (attribute and contents API), "
-    "resize, save/restore of get_focus_path(). Oracle after every op for every container of the tree. "
-    "Non-trivial: >=2 container levels in the initial tree and a contents mutation op followed later by a key op."
+    "container (ListBox: on its walker), the rest of the list API on the same lists (del / assignment through "
+    "any Python slice object: start, stop None or -10..10, step None, +-1, +-2, +-3, an extended slice being "
+    "assigned exactly as many children as it covers; append, extend, +=, insert with a negative or too large "
+    "index, remove(value), pop(negative index), reverse(), *= 1, *= 0), Frame header/footer replace/remove "
+    "(attribute and contents API), resize, save/restore of get_focus_path(). Oracle after every op for every "
+    "container of the tree. Non-trivial: >=2 container levels in the initial tree and a contents mutation op "
+    "followed later by a key op. "
+    "Plus a deterministic sweep through the same interpreter: every list-like container kind (Pile, Columns, "
+    "GridFlow, ListBox over SimpleListWalker / SimpleFocusListWalker) x 1..4 children (thorough 1..6) x every "
+    "focus position x every slice spelling (start, stop in {None} + [-(n+1), n+1], step in {None, +-1, +-2, +-3}) "
+    "x {del; assignment of 0, 1, 2 children to an ordinary slice, of as many as covered to an extended slice}, "
+    "history = focus_position = f, the edit, one arrow key; non-trivial there: the edit changes the list."
 )
 ASSUMPTIONS = [
     "probe widgets are correct urwid leaf widgets (Widget subclasses with render/rows/keypress/mouse_event)",
@@ -66,6 +81,10 @@ ASSUMPTIONS = [
     "(private attribute set_focus_pending is read only to widen the allowed receiver set of a keypress)",
     "weights are 1..3, given sizes >= 1 (zero weights / zero sizes: the statement is silent)",
     "only the default command_map is used",
+    "Python's own list semantics for slices (the model is a plain list edited with the same slice object) are the "
+    "reference for which children an edit removes / replaces; which child gets the focus afterwards is not asserted, "
+    "only that it is a valid one",
+    "a child object occurs once in a tree (no `contents *= 2`, no widget inserted twice): the model finds children by identity",
 ]
 
 NAV_KEYS = ["up", "down", "left", "right", "page up", "page down", "home", "end", "tab"]
@@ -858,10 +877,10 @@ class Harness:
     def real_list(self, node):
         return node.w.body if node.kind == "lb" else node.w.contents
 
-    def new_items(self, parent, items):
+    def new_items(self, parent, items, limit=4):
         """build (node, real item) pairs for insertion into parent"""
         built = []
-        for it in list(items)[:4]:
+        for it in list(items)[:limit]:
             cmode, slot, amt, box = self.child_plan(parent.kind, parent.mode, it)
             node = self.realize(it.get("n", {"k": "p"}), cmode)
             node.slot = slot
@@ -936,6 +955,123 @@ class Harness:
         if parent is None:
             return
         self.edit(parent, 0, len(parent.kids), [], "clear")
+
+    def edit_slice(self, parent, slc, items, delete):
+        """``del contents[slc]`` / ``contents[slc] = items`` for an arbitrary Python slice object (any
+        sign of start/stop/step, None, out of range) on the model - a plain list, so the list semantics
+        of Python itself are the oracle - and on the real container."""
+        built = [] if delete else self.new_items(parent, items, limit=8)
+        kids = list(parent.kids)
+        if delete:
+            del kids[slc]
+        else:
+            kids[slc] = [x[0] for x in built]
+        if not self.admissible(parent, kids) or len(kids) > 8:
+            self.count("edit:skipped-precondition")
+            return False
+        real = self.real_list(parent)
+        if delete:
+            del real[slc]
+        else:
+            real[slc] = [x[1] for x in built]
+        parent.kids = kids
+        self.gen += 1
+        return True
+
+    def op_xslice(self, op):
+        """["xslice", container, start, stop, step, how, items]: start/stop/step as written by the caller
+        (None or any int, step != 0); how 0 = del, 1 = assignment.  An extended slice (step other than
+        None/1) can only be assigned exactly as many items as it covers (list semantics), so the item
+        specs are cycled to that number; an ordinary slice takes the items as given."""
+        parent = self.pick(self.list_containers(), op[1])
+        if parent is None:
+            return
+        start, stop, step = (None if x is None else int(x) for x in op[2:5])
+        if step == 0:
+            step = None
+        slc = slice(start, stop, step)
+        delete = int(op[5]) % 2 == 0
+        specs = list(op[6]) if len(op) > 6 else []
+        if not delete and step not in (None, 1):
+            need = len(range(*slc.indices(len(parent.kids))))
+            specs = [(specs or [{}])[i % max(1, len(specs))] for i in range(need)]
+        else:
+            specs = specs[:4]
+        if self.edit_slice(parent, slc, specs, delete):
+            sign = "0" if step is None else ("+" if step > 0 else "-")
+            self.count(f"xslice:{'del' if delete else 'set'}:step{sign}{'' if step is None else min(abs(step), 2)}")
+
+    def op_add(self, op):
+        """["add", container, variant, index, items]: the other ways a list grows - append, extend,
+        ``+=``, insert with a negative index or an index beyond the end"""
+        parent = self.pick(self.list_containers(), op[1])
+        if parent is None:
+            return
+        n = len(parent.kids)
+        variant = int(op[2]) % 4
+        specs = list(op[4])[:2] or [{}]
+        if variant in (0, 3):
+            specs = specs[:1]
+        a = n if variant < 3 else int(op[3]) % (n + 1)
+        built = self.new_items(parent, specs)
+        kids = list(parent.kids)
+        kids[a:a] = [x[0] for x in built]
+        if not self.admissible(parent, kids) or len(kids) > 8:
+            self.count("edit:skipped-precondition")
+            return
+        real = self.real_list(parent)
+        new_real = [x[1] for x in built]
+        if variant == 0:
+            real.append(new_real[0])
+        elif variant == 1:
+            real.extend(new_real)
+        elif variant == 2:
+            real += new_real  # in place: MonitoredList.__iadd__
+        else:
+            # list.insert: a negative index counts from the end, an index > len appends
+            real.insert(a - n if a < n else n + 1 + int(op[3]) % 3, new_real[0])
+        parent.kids = kids
+        self.gen += 1
+        self.count(f"add:{('append', 'extend', 'iadd', 'insert-neg-or-beyond')[variant]}")
+
+    def op_rem(self, op):
+        """["rem", container, index, variant]: remove(value) / pop with a negative index"""
+        parent = self.pick(self.list_containers(), op[1])
+        if parent is None or not parent.kids:
+            return
+        n = len(parent.kids)
+        a = int(op[2]) % n
+        kids = list(parent.kids)
+        del kids[a]
+        if not self.admissible(parent, kids):
+            self.count("edit:skipped-precondition")
+            return
+        real = self.real_list(parent)
+        if int(op[3]) % 2 == 0:
+            real.remove(real[a])  # children are distinct objects: the first equal item is item a
+        else:
+            real.pop(a - n)
+        parent.kids = kids
+        self.gen += 1
+        self.count("rem:remove" if int(op[3]) % 2 == 0 else "rem:pop-neg")
+
+    def op_whole(self, op):
+        """["whole", container, variant]: in-place whole-list edits - reverse(), ``*= 1``, ``*= 0``"""
+        parent = self.pick(self.list_containers(), op[1])
+        if parent is None:
+            return
+        variant = int(op[2]) % 3
+        real = self.real_list(parent)
+        if variant == 0:
+            real.reverse()
+            parent.kids = list(reversed(parent.kids))
+        elif variant == 1:
+            real *= 1
+        else:
+            real *= 0
+            parent.kids = []
+        self.gen += 1
+        self.count(f"whole:{('reverse', 'imul1', 'imul0')[variant]}")
 
     def op_setall(self, op):
         parent = self.pick(self.list_containers(), op[1])
@@ -1121,6 +1257,9 @@ def _ops(max_ops, item_depth):
         st.tuples(st.just("t"), st.integers(0, 3)),
     ).map(list)
     key = st.tuples(st.just("key"), st.sampled_from(ALL_KEYS + ["up", "down", "left", "right"] * 2))
+    # a slice bound / step as a caller may write it: omitted, counted from either end, beyond either end
+    bound = st.one_of(st.none(), st.integers(-10, 10))
+    step = st.sampled_from([None, 1, 2, 3, -1, -2, -3])
     op = st.one_of(
         key,
         key,
@@ -1134,6 +1273,11 @@ def _ops(max_ops, item_depth):
         st.tuples(st.just("slice"), ci, idx, idx, st.lists(item, max_size=2)),
         st.tuples(st.just("setall"), ci, st.lists(item, max_size=3), st.integers(0, 1)),
         st.tuples(st.just("clear"), ci),
+        st.tuples(st.just("xslice"), ci, bound, bound, step, st.integers(0, 1), st.lists(item, max_size=2)),
+        st.tuples(st.just("xslice"), ci, bound, bound, step, st.integers(0, 1), st.lists(item, max_size=2)),
+        st.tuples(st.just("add"), ci, st.integers(0, 3), idx, st.lists(item, min_size=1, max_size=2)),
+        st.tuples(st.just("rem"), ci, idx, st.integers(0, 1)),
+        st.tuples(st.just("whole"), ci, st.sampled_from([0, 0, 1, 2])),
         st.tuples(st.just("part"), ci, st.integers(0, 1), st.integers(0, 3), st.one_of(st.none(), flow_node(item_depth))),
         st.tuples(st.just("resize"), st.integers(0, 34), st.integers(0, 17)),
         st.tuples(st.just("save")),
@@ -1166,7 +1310,7 @@ def case_strategy(depth, max_ops):
 # ---------------------------------------------------------------------------------------------
 # evidence helpers
 
-MUTATIONS = {"ins", "del", "slice", "setall", "clear", "part"}
+MUTATIONS = {"ins", "del", "slice", "setall", "clear", "part", "xslice", "add", "rem", "whole"}
 
 
 def _levels(spec):
@@ -1214,12 +1358,81 @@ def classify(case):
             out.append(f"focus-arg:{op[2][0]}")
         elif op[0] == "path":
             out.append(f"path-kind:{int(op[1]) % 4}")
+        elif op[0] == "xslice":
+            stp = op[4]
+            out.append(f"xslice:{'del' if int(op[5]) % 2 == 0 else 'set'}:{'step-neg' if (stp or 1) < 0 else ('step-ext' if (stp or 1) > 1 else 'step-1')}")
     return sorted(set(out))
+
+
+SWEEP_KINDS = ("pile", "cols", "grid", "lb-s", "lb-f")
+SWEEP_STEPS = (None, 1, 2, 3, -1, -2, -3)
+
+
+def _sweep_probe(i):
+    # child 1 is unselectable, the others selectable; none handles a key
+    return {"k": "p", "sel": int(i != 1), "keys": [], "rows": 1}
+
+
+def slice_sweep_cases(max_n):
+    """Every list-like container kind x 1..max_n children x every focus position x every spelling of
+    a slice (start, stop in {None} + [-(n+1), n+1]: omitted, from either end, one beyond either end;
+    step in {None, +-1, +-2, +-3}) x {del, assignment}.  An ordinary slice is assigned 0, 1 and 2 new
+    children, an extended slice the number it covers.  History: focus_position = f; the edit; one
+    arrow key."""
+    new = [{"o": ["w", 1], "n": {"k": "p", "sel": 1, "keys": [], "rows": 1}}, {"o": ["w", 1], "n": {"k": "p", "sel": 0, "keys": [], "rows": 1}}]
+    for kind in SWEEP_KINDS:
+        mode = "F" if kind == "grid" else "B"
+        key = "right" if kind in ("cols", "grid") else "down"
+        for n in range(1, max_n + 1):
+            spec = {"k": kind.split("-")[0], "c": [{"o": ["w", 1], "n": _sweep_probe(i)} for i in range(n)], "focus": None}
+            if kind.startswith("lb"):
+                spec["walker"] = kind[-1]
+            bounds = [None, *range(-(n + 1), n + 2)]
+            for f in range(n):
+                for start in bounds:
+                    for stop in bounds:
+                        for step in SWEEP_STEPS:
+                            variants = [(0, [])]
+                            if step in (None, 1):
+                                variants += [(1, new[:k]) for k in (0, 1, 2)]
+                            else:
+                                variants.append((1, new))
+                            for how, items in variants:
+                                yield {
+                                    "tree": spec,
+                                    "mode": mode,
+                                    "size": [12, 6],
+                                    "ops": [["focus", 0, ["v", f]], ["xslice", 0, start, stop, step, how, items], ["key", key]],
+                                }
+
+
+def _sweep_nontrivial(case):
+    """the edit changes the list: the slice covers a child or children are assigned"""
+    op = case["ops"][1]
+    return bool(op[6]) or len(range(*slice(op[2], op[3], op[4]).indices(len(case["tree"]["c"])))) > 0
+
+
+def _sweep_classify(case):
+    op = case["ops"][1]
+    stp = op[4]
+    return [
+        f"sweep:{case['tree']['k']}:n={len(case['tree']['c'])}",
+        f"sweep:{'del' if op[5] == 0 else 'set'}:{'step-neg' if (stp or 1) < 0 else ('step-ext' if (stp or 1) > 1 else 'step-1')}",
+    ]
 
 
 def shard(ctx):
     depth = ctx.scale(3, 4)
     max_ops = ctx.scale(30, 60)
+    ctx.sweep(
+        "ops",
+        slice_sweep_cases(ctx.scale(4, 6)),
+        nontrivial=_sweep_nontrivial,
+        classify=_sweep_classify,
+        exhaustive_name="every slice spelling x focus x list-like container with <= %d children" % ctx.scale(4, 6),
+    )
+    if ctx.failure is not None:
+        return
     ctx.given("ops", case_strategy(depth, max_ops), ctx.scale(400, 8000), nontrivial=nontrivial, classify=classify)
     for label, n in sorted(STATS.items()):
         ctx.count("run:" + label, n)
